@@ -5,6 +5,7 @@ package interp
 import (
 	"fmt"
 	"go/token"
+	"math/rand"
 	"os"
 	"strings"
 )
@@ -68,13 +69,14 @@ type pathState struct {
 	mustTerminate bool
 	quiescenceFns []value
 	assertsSeen int
+	weight   float64 // estimate mode: product of the numbers of feasible outcomes taken at random
 	// result
 	status  string // "", "violation", "inconclusive"
 	verdict *Finding
 }
 
 func newPathState(ex *Explorer, w *Worker, prefix []int32) *pathState {
-	return &pathState{ex: ex, w: w, prefix: prefix, pcSet: map[string]struct{}{}, declSet: map[string]struct{}{}, lenCache: map[string]*sym{}, unwind: ex.Cfg.Unwind}
+	return &pathState{weight: 1, ex: ex, w: w, prefix: prefix, pcSet: map[string]struct{}{}, declSet: map[string]struct{}{}, lenCache: map[string]*sym{}, unwind: ex.Cfg.Unwind}
 }
 
 func (p *pathState) declare(name, sort string) {
@@ -174,6 +176,12 @@ func (p *pathState) decideK(kind byte, conds []string) int {
 	if len(feas) == 0 {
 		panic(pathAbort{"infeasible"})
 	}
+	if p.ex.Cfg.Estimate > 0 {
+		c := feas[rand.Intn(len(feas))]
+		p.weight *= float64(len(feas))
+		p.take(kind, c, conds[c])
+		return c
+	}
 	first = feas[0]
 	// push alternatives (in reverse so that lower outcomes are explored first by the LIFO frontier)
 	for j := len(feas) - 1; j >= 1; j-- {
@@ -263,6 +271,17 @@ func (p *pathState) decideBranch(pos, neg string) bool {
 		return false
 	}
 	r2 := p.w.check(p, neg)
+	if p.ex.Cfg.Estimate > 0 {
+		if r2 != "unsat" {
+			p.weight *= 2
+			if rand.Intn(2) == 1 {
+				p.take(dBranch, 1, neg)
+				return false
+			}
+		}
+		p.take(dBranch, 0, pos)
+		return true
+	}
 	if r2 != "unsat" {
 		alt := make([]int32, len(p.taken)+1)
 		copy(alt, p.taken)
